@@ -12,7 +12,7 @@ CHECKS = {
     "C04": ("exploration", "3.C04", "Scripted writers over 22 time-series shapes are observed in every engine cycle - also the cycles in which nothing was written - by always-awake passive probes and by active consumers at different ranks; every reading (value, modified, valid, last-modified-time, delta accessors, per child) is compared with the write history and with the producer's own view. Seeded sampling of shapes and write histories."),
     "C05": ("exploration", "3.C05", "Seeded mutation histories (biased to cancelling, re-adding, slot-reusing and capacity-crossing mutations) over collection shapes; every tick read by direct, mirrored and lazy consumers is checked relationally (value = previous value + delta, added/removed disjoint and consistent with both values) and against a Python container model. Seeded sampling."),
     "C06": ("exploration", "3.C06", "Each seeded program is wired in several admissible statement orders and seeded with duplicated and near-duplicated sub-expressions and sinks; streams must be identical across orders and equal to the reference interpreter on the un-shared program, and the compiled node count may never fall below the number of statement classes that must stay distinct. Sampling of programs, orders and duplicate placements."),
-    "C07": ("exploration", "3.C07", "Refinement against the system's own sequential behaviour: the fresh-process trace of a scenario is compared line by line with its trace after seeded process history, under builder reuse (incl. after failed runs), under wall-clock faults, and while 1-3 other executors run concurrently on simulated threads whose interleaving a seeded scheduler decides at every intercepted mutex operation and node evaluation. Sampling of scenarios, histories and interleavings; word-level races are out of reach."),
+    "C07": ("exploration", "3.C07", "Refinement against the system's own sequential behaviour: the fresh-process trace of a scenario is compared line by line with its trace after seeded process history, under builder reuse (incl. after failed runs), under wall-clock faults, and while 1-3 other executors run concurrently on simulated threads whose interleaving a seeded scheduler decides at every intercepted mutex operation and node evaluation. Sampling of scenarios, histories and interleavings; word-level races are out of reach. The thorough tier adds an instrumented pass of the concurrent section (pre-emption at function-call granularity, sampled site sweeps)."),
     "C08": ("exploration", "3.C08", "Seeded search over programs with one to three feedback edges and writer scripts; for every feedback the stream at the reader is compared with the stream at the bound producer shifted by exactly one MIN_TD, and the whole run with the reference interpreter. Sampling."),
     "C09": ("exploration", "3.C09", "Every case wires the same sub-graph definition inline and as a nested child at depth 1, 2 and 3 against the same inputs in one run; recorder streams must agree across the four variants and with the reference interpreter, and child graphs must be evaluated inside their parent's bracket at the parent's time. Sampling of definitions, scalars and inputs. Three genuine differences are recorded as known findings and reported as KNOWN-FINDING."),
     "C10": ("exploration", "3.C10", "Seeded key histories over a vocabulary of mapped functions (stateless, stateful, key-consuming, self-scheduling, failing, two multiplexed dictionaries, broadcast) drive the real map_ node; the output dictionary after every tick is compared with a key-set model built from per-key solo reference instances, errors must appear under the failing key only, and child start/stop hooks must pair with key add/remove. Seeded sampling."),
@@ -21,8 +21,8 @@ CHECKS = {
     "C13": ("exploration", "3.C13", "Two scripted targets and a scripted selector feed if_then_else over scalar, bundle, set and dictionary shapes; the result is read directly, below a nested pass-through, from an if_then_else inside a nested graph, and through the same selection made by switch_ (direct and reference-shaped branch terminals). A model of the sampled-rebind semantics decides for every cycle whether each consumer must (not) be evaluated and what value and delta it must read. Seeded sampling of relative timings."),
     "C14": ("fault_enumeration", "3.C14", "For each seeded program every single fault point (node x phase x occurrence<=3) is injected in its own run, plus seeded fault pairs, under cleanup_on_error on/off and request_stop; the complete lifecycle-observer history of each run is checked against start/stop pairing, order, exactly-once, no-evaluation-outside-lifetime, rollback and error-identity invariants. Exhaustive over single fault points per program; programs and pairs are sampled."),
     "C15": ("fault_enumeration", "3.C15", "For each seeded program with error capture (exception_time_series / try_except_) every subset of the capturing node's evaluation cycles (complete up to 5 evaluations) is made to throw; each run is compared with the fault-free run (independent streams unchanged), with the error-tick count/message rule and with the reference interpreter under the same fault plan; a quarter of the runs are keyed maps (exception_time_series over map_, per-key solo reference, error under the failing key only). Exhaustive over cycle subsets for small targets; programs are sampled."),
-    "C16": ("exploration", "3.C16", "The real push-source node, sender and real-time executor run on simulated threads: a seeded scheduler chooses the running thread at every intercepted pthread mutex/condition-variable call, advances a simulated clock and injects stalls, spurious and late wake-ups, starvation and stop races. The recorded invoke/return/deliver history is checked for FIFO linearizability, exactly-once, capacity, justified refusals, bounded liveness and lost wake-ups (a forced time-out of the engine's wait while work is pending). Seeded sampling of interleavings (distinct decision-list hashes are counted), not enumeration. The thorough tier adds a pass on a build whose runtime translation units are compiled with -finstrument-functions, where the scheduler may also pre-empt at engine function entries; failing schedules are minimised as an explicit decision tape."),
-    "C17": ("exploration", "3.C17", "The real real-time run loop on a simulated wall clock with scripted timers, wall-clock alarms, pushes, stop requests, slow evaluations and clock faults; time/ordering invariants over the recorded history (never early, every due wake-up delivered at its logical time, prompt stop, end-time termination, no lost wake-up, no deadlock). Seeded sampling of schedules and interleavings."),
+    "C16": ("exploration", "3.C16", "The real push-source node, sender and real-time executor run on simulated threads: a seeded scheduler chooses the running thread at every intercepted pthread mutex/condition-variable call, advances a simulated clock and injects stalls, spurious and late wake-ups, starvation and stop races. The recorded invoke/return/deliver history is checked for FIFO linearizability, exactly-once, capacity, justified refusals, bounded liveness and lost wake-ups (a forced time-out of the engine's wait while work is pending). Seeded sampling of interleavings (distinct decision-list hashes are counted), not enumeration. The thorough tier adds a pass on a build whose runtime translation units are compiled with -finstrument-functions, where the scheduler may also pre-empt at engine function entries; failing schedules are minimised as an explicit decision tape. The thorough tier adds a pass on a build whose runtime translation units are instrumented at function entry: seeded pre-emption inside engine code and systematic site sweeps (one run per call site entered while another thread was runnable)."),
+    "C17": ("exploration", "3.C17", "The real real-time run loop on a simulated wall clock with scripted timers, wall-clock alarms, pushes, stop requests, slow evaluations and clock faults; time/ordering invariants over the recorded history (never early, every due wake-up delivered at its logical time, prompt stop, end-time termination, no lost wake-up, no deadlock). Seeded sampling of schedules and interleavings. The thorough tier adds the instrumented pass with site sweeps as for C16."),
     "C18": ("exploration", "3.C18", "Seeded operation sequences on the real NodeScheduler executed by scripted nodes inside running graphs; every query answer after every operation is compared with a pending-set reference model and every pending time must produce an evaluation at exactly that time. Sampling of operation sequences."),
     "C20": ("exploration", "3.C20", "For seeded tick histories over a 22-shape schema library the run records the stream, replays the recording in a second run and records again; buffers must be equal cycle for cycle, a capture/apply mirror must hold the writer's value at every tick. Seeded sampling of schemas and histories."),
 }
